@@ -39,6 +39,13 @@ CHECKS = {
    text="Breadth-first search over histories of set / batch_set / begin / commit / rollback on a real StorageManager (with and without cache) over a small universe of epoch records, tree nodes and well-formed user states (incl. tombstone-shaped rewrites), states deduplicated by an exact fingerprint of database + transaction log + cache. In every state the full read suite (get, batch_get over key subsets, every user-state query for every flag/argument, bulk versions for every user subset) is compared with StoreModel(committed+pending); committable open transactions are committed for real and re-read; op contracts (begin refused while open, rollback, commit batch = pending with epoch record last) are checked on every transition."),
  "C16": dict(cat="model_checking", sec="§4 C16", tech="explicit-state BFS over cached-StorageManager histories under a virtual clock with exact fingerprints, plus stateless model checking of 2-3 concurrent manager tasks under the controlled scheduler (incl. response-delivery scheduling points)",
    text="BFS over histories of one cached StorageManager: writes (incl. writes and commit batches the database rejects), transactions, flush, tombstoning, cache-filling reads, virtual clock advances across item lifetimes and clean periods, cleaning on/off, several (lifetime, memory limit, clean frequency) settings, and an external writer for the flush clause; after every transition every get/batch_get/get_direct equals the database (or the pending value). Concurrent part: all schedules (bounded preemptions) of reader vs writer / committing transaction / flush tasks on one manager with request and response delivery as separate scheduling points; at quiescence reads equal the database."),
+
+ "C07": dict(cat="exploration", sec="§4 C07", tech="exhaustive enumeration of histories x labels x adversarial history-proof menu (claimed ranges with recomputed markers and forged absences, list-level alterations) and dishonest trees built by a harness-side publisher; real key_history_verify vs DirModel",
+   text="After every epoch of every bounded history, for every label every claimed version range assembled from real material (marker lists recomputed for the claim, absences of existing markers from the honest generator or forged at every real ancestor) and every list-level alteration of the honest proofs (drop newest/oldest, gaps, duplicates, reversal, value/epoch/nonce/tombstone substitution, omitted/surplus markers) is verified under Complete and MostRecent(N) in both verification modes: accepted implies the result equals the model's list (empty values only when the verifier opted in). Trees whose stale marker is missing or 1-2 epochs late must not verify for any parameter covering the affected version."),
+ "C19": dict(cat="exploration", sec="§4 C19", tech="exhaustive round-trip of every proof/component produced over bounded histories and exhaustive deviation-1 corruption (every truncation, bit flip, field deletion/duplication at every nesting level, size violations) of representative encodings plus all short byte strings, decoded by the real code under catch_unwind in a child process",
+   text="Every lookup, history and append-only proof and each component produced after every epoch of every bounded history is converted to its protobuf message and bytes and back (identity) and the decoded proof verified to the same result (incl. the wasm client's path and AuditBlob). Representative encodings are corrupted exhaustively at deviation 1 (every truncation length, every single-bit flip, every single-field deletion/duplication at every nesting level through a schema-aware wire-format editor, oversize label lengths/values, wrong-size digests and VRF proofs) and every byte string of length <=2 (thorough 3) is fed to every decoder: no panic; Err, or a proof that fails or verifies to the original result."),
+ "C20": dict(cat="exploration", sec="§4 C20", tech="exhaustive enumeration of histories x labels x every tombstone cut-off epoch x manager variants x continuation publishes; real tombstone_value_states + real proofs/verifiers vs DirModel",
+   text="After every epoch of every bounded history, for every label with >=2 versions and every cut-off epoch before its latest update, values are tombstoned through the directory's own manager (uncached / cached and warmed) or a second manager; storage may differ only in that label's old value records; epoch hash, all audits, own lookup and all other labels are unchanged and verify; the label's history under AllowMissingValues equals the model with exactly the replaced values empty and under Default is rejected iff the range contains a replaced entry, for Complete and every MostRecent(k); continuation publishes follow the model."),
 }
 
 def main():
